@@ -45,6 +45,22 @@ pub fn capacities() -> (usize, usize) {
     (F1.load(SeqCst), F.load(SeqCst))
 }
 
+/// Like `measure_capacities`, but the in-process build (which has no packets) places its length
+/// classes where the OS build with the same `sndbuf` parameter has its boundaries, so that the
+/// same program means the same thing on every build.
+pub fn measure_capacities_for(ctx: &Ctx) {
+    if cfg!(feature = "inproc") {
+        let sb = match ctx.param_u64("sndbuf", 0) {
+            0 => 212992,
+            n => n as usize,
+        };
+        F1.store((sb - 40) & !7, SeqCst);
+        F.store(sb - 32, SeqCst);
+        return;
+    }
+    measure_capacities();
+}
+
 /// Measure the packet capacities (see module doc).
 pub fn measure_capacities() {
     if F1.load(SeqCst) != 0 {
